@@ -323,6 +323,72 @@ pub fn run_workload(sub: u64, only_leg: Option<&str>, acc: &mut Acc, ctx: &Ctx, 
         }
     }
 
+    // ---- timestamp sort: every file is stat()ed by name between listing and opening ----
+    if want("timestamp-sort") && !files.is_empty() && !w.stats {
+        let key = ["modified", "accessed", "created"][rng.below(3)];
+        let flag = if rng.chance(1, 2) { "--sort" } else { "--sortr" };
+        let targs: Vec<String> = args.iter().filter(|a| *a != "--sort=path").cloned().chain([format!("{flag}={key}")]).collect();
+        let tmk = |plan: Vec<String>| RunSpec { args: targs.clone(), plan, ..RunSpec::default() };
+        let masked_sorted = |o: &RunOut| {
+            let m = mask_times(&o.stdout);
+            let mut v: Vec<Vec<u8>> = lines(&m).into_iter().map(|l| l.to_vec()).collect();
+            v.sort();
+            v
+        };
+        let victim = files[rng.below(files.len())].clone();
+        let base_spec = tmk(vec!["noop=1".into()]);
+        let base = ctx.run(&cwd, &base_spec, 30);
+        let stat_spec = tmk(vec![format!("stat_err=/w/{victim}:{}", if rng.chance(1, 2) { 13 } else { 2 })]);
+        let got = ctx.run(&cwd, &stat_spec, 30);
+        acc.evals += 2;
+        acc.mix.inc("timestamp-sort");
+        acc.faults.add("stat-by-name-fails(between listing and opening)", got.fired("stat_err"));
+        digest = fnv_step(digest, fnv(&masked_sorted(&base).concat()) ^ (base.code as u64) ^ fnv(&masked_sorted(&got).concat()).rotate_left(9) ^ ((got.code as u64) << 8));
+        // the sort itself changes only the order
+        if masked_sorted(&base) != masked_sorted(&reference) && w.threads == 1 && w.mode != "quiet" {
+            acc.violation("C15", "timestamp-sort-changed-results", format!("{flag}={key} printed other lines than --sort=path"), sub, replay_body(sub, &w, "timestamp-sort", &base_spec, Some(&reference), &base, json!(null)));
+        }
+        if base.code != reference.code || !base.stderr.is_empty() {
+            acc.violation("C15", "timestamp-sort-changed-results", format!("{flag}={key}: exit {} (reference {}), stderr {:?}", base.code, reference.code, show(&base.stderr)), sub, replay_body(sub, &w, "timestamp-sort", &base_spec, Some(&reference), &base, json!(null)));
+        }
+        // a file whose timestamp cannot be had is still searched (it sorts last): same lines, same status, no diagnostic
+        if got.fired("stat_err") > 0 {
+            let order_free = w.mode != "quiet";
+            if (order_free && masked_sorted(&got) != masked_sorted(&base)) || got.code != base.code || !got.stderr.is_empty() {
+                acc.violation("C15", "stat-fault-under-timestamp-sort", format!("{flag}={key} with stat of w/{victim} failing (the file itself can be opened): exit {} (without the fault {}), {} lines (without {}), stderr {:?}", got.code, base.code, masked_sorted(&got).len(), masked_sorted(&base).len(), show(&got.stderr)), sub, replay_body(sub, &w, "timestamp-sort", &stat_spec, Some(&base), &got, json!({"victim": victim})));
+            }
+        }
+        // the file vanished: neither stat nor open work -> the usual contract of an unopenable file
+        if w.mode != "files" {
+            let gone_spec = tmk(vec![format!("stat_err=/w/{victim}:2"), format!("open_err=/w/{victim}:2")]);
+            let gone = ctx.run(&cwd, &gone_spec, 30);
+            acc.evals += 1;
+            digest = fnv_step(digest, fnv(&masked_sorted(&gone).concat()) ^ (gone.code as u64));
+            if gone.fired("open_err") > 0 {
+                acc.faults.inc("file-vanished-before-stat-and-open");
+                let names = if w.no_messages { gone.stderr.is_empty() } else { String::from_utf8_lossy(&gone.stderr).contains(&format!("w/{victim}")) };
+                if !names {
+                    acc.violation("C15", "faulted-file-not-reported", format!("{flag}={key}: w/{victim} vanished (stat and open fail) but stderr does not name it: {:?}", show(&gone.stderr)), sub, replay_body(sub, &w, "timestamp-sort", &gone_spec, Some(&base), &gone, json!({"victim": victim})));
+                }
+                let mut fs = BTreeSet::new();
+                fs.insert(victim.clone());
+                if let Some(exp) = expected_status(&w, &fs, &BTreeSet::new(), false) {
+                    if gone.code != exp {
+                        acc.violation("C15", "status-with-open-fault", format!("{flag}={key}: w/{victim} vanished: exit {} expected {exp}", gone.code), sub, replay_body(sub, &w, "timestamp-sort", &gone_spec, Some(&base), &gone, json!({"victim": victim})));
+                    }
+                }
+                if line_mode {
+                    let b = mask_times(&base.stdout);
+                    let g = mask_times(&gone.stdout);
+                    let exp_lines: Vec<&[u8]> = lines(&b).into_iter().filter(|l| !belongs(l, &victim)).collect();
+                    if sorted(&exp_lines) != sorted(&lines(&g)) {
+                        acc.violation("C15", "other-results-suppressed", format!("{flag}={key}: w/{victim} vanished: results of other files changed"), sub, replay_body(sub, &w, "timestamp-sort", &gone_spec, Some(&base), &gone, json!({"victim": victim})));
+                    }
+                }
+            }
+        }
+    }
+
     // ---- file truncated between listing and reading --------------------------------
     if want("truncated") && !files.is_empty() && matches!(w.mode.as_str(), "standard" | "count") && w.threads == 1 {
         let victim = files[rng.below(files.len())].clone();
